@@ -295,7 +295,7 @@ static void body()
         });
     }
     vrt::phase("sep_random", vrt::tier_count(8000, 600000), [&](uint64_t, Rng &r) {
-        S alpha = r.chance(1, 2) ? S("ab:") : S("aAbB:.\xc3\xa9");
+        S alpha = r.chance(1, 3) ? S("ab:") : r.chance(1, 2) ? S("aAbB:.\xc3\xa9") : S("@`[{^~_\x7f,\x0c; \t)kK");   // last: non-letters next to their bit-5 twins
         if (r.chance(1, 4)) alpha.push_back('\0');
         S s = gen::bytes_over(r, gen::pick_len(r) % 60, alpha);
         S sep;
